@@ -555,7 +555,7 @@ def rule_tensor_header(F, R):
 def rule_version(F, R):
     f = F.one("nano::configurable_t::read", "src/configurable.cpp")
     crit = [c for c in f.calls(lambda x: callee(x) == "nano::critical")]
-    ver = [c for c in crit if any(y["k"] == "bin" and y["op"] == ">" and pp(y) == CT("(m_major_version > nano::major_version)") for y in walk(args(c)[0]))]
+    ver = [c for c in crit if any(y["k"] == "bin" and y["op"] in ("<", ">") and pp(y) == CT("(m_major_version > nano::major_version)") for y in walk(args(c)[0]))]
     par = [c for c in crit if "m_parameters" in pp(args(c)[0])]
     ok = len(ver) == 1 and len(par) == 1 and f.cfg.dominates(f.cfg.where_enclosing(ver[0]), f.cfg.where_enclosing(par[0]))
     R.check(ok, "R-C15-5", "configurable version gate", f.loc(), "version comparison dominates reading the parameters", "parameters are read before / without the version check")
